@@ -1,12 +1,16 @@
 (* C13/StratProofs.v — every output strategy, as assembled from the generated scripts, follows the write-rename protocol
    for all inputs; the in-place decision; sequential signings. *)
-From Relic Require Import Base.Prelude Generated.C13_gen C13.Fs C13.FsProofs C13.Strategies.
+From Relic Require Import Base.Prelude Generated.C13_gen C13.Fs C13.FsProofs C13.Stage C13.Strategies.
 
 Lemma forallb_app' {A} (f : A -> bool) a b : forallb f (a ++ b) = forallb f a && forallb f b.
 Proof. apply forallb_app. Qed.
 
 Section S.
 Variables (pt pd : path) (it iin : ino).
+(* the environment of the run: ANY combination of failing calls; the destination is neither "-" nor a special file *)
+Variables (en : oenv) (idest : ino).
+Hypothesis Hdash : e_dash en = false.
+Hypothesis Hspecial : e_special en = false.
 Notation chk := (check pt pd it).
 Notation ok1 := (step_ok1 pt it).
 Notation mk := (mk_steps pt pd).
@@ -39,10 +43,27 @@ Proof.
   cbn [forallb] in H. apply andb_true_iff in H as [Hs Hl]. unfold pre_ok in Hs. apply andb_true_iff in Hs as [Hs H3]. apply andb_true_iff in Hs as [H1 H2].
   cbn [app Fs.check]. destruct (p_op st); try discriminate. rewrite H2, H3. apply IH, Hl.
 Qed.
-Lemma check_new r : chk 0 (new_steps pt pd it false 1 ++ r) = chk 1 r.
+(* the open phase, whatever fails: New is one call, the creation of the sibling temporary; when it fails New stops there and
+   returns the error.  WriteAny (destination not "-", not special) is isSpecial's stat and New, nothing else. *)
+Lemma new_steps_staged : new_steps_e pt pd it en it false 1 = [mkP (SCreate pt it) Abort [] (f_temp en)].
+Proof. clear Hdash Hspecial. destruct en as [d s f1 f2 f3 f4 f5 f6 op]. destruct f1; reflexivity. Qed.
+Lemma new_steps_staged2 : new_steps_e pt pd it en it false 2 = [mkP (SCreate pt it) Abort [SNop K_CLOSE_TMP; SUnlink pt] (f_temp en)].
+Proof. clear Hdash Hspecial. destruct en as [d s f1 f2 f3 f4 f5 f6 op]. destruct f1; reflexivity. Qed.
+Lemma writeany_steps_staged : writeany_steps_e pt pd it en idest false 1 =
+  [mkP (SNop K_STAT_DEST) Ignore [] false; mkP (SCreate pt it) Abort [] (f_temp en)].
+Proof. destruct en as [d s f1 f2 f3 f4 f5 f6 op]. cbn in Hdash, Hspecial. subst d s. destruct f1; reflexivity. Qed.
+Lemma staged_finish pl : finish_plan pt it (o_handle (writeany_result en)) idest pl = pl.
+Proof. destruct en as [d s f1 f2 f3 f4 f5 f6 op]. cbn in Hdash, Hspecial. subst d s. destruct f1; reflexivity. Qed.
+Lemma check_create b r : chk 0 (mkP (SCreate pt it) Abort [] b :: r) = chk 1 r.
+Proof. cbn [Fs.check p_op p_onerr p_cleanup]. rewrite !Z.eqb_refl. reflexivity. Qed.
+Lemma check_new r : chk 0 (new_steps_e pt pd it en it false 1 ++ r) = chk 1 r.
+Proof. rewrite new_steps_staged. cbn [app]. apply check_create. Qed.
+Lemma check_writeany r : chk 0 (writeany_steps_e pt pd it en idest false 1 ++ r) = chk 1 r.
 Proof.
-  change (new_steps pt pd it false 1) with [mkP (SCreate pt it) Abort [] false].
-  cbn [app Fs.check p_op p_onerr p_cleanup]. rewrite !Z.eqb_refl. reflexivity.
+  rewrite writeany_steps_staged.
+  change ([mkP (SNop K_STAT_DEST) Ignore [] false; mkP (SCreate pt it) Abort [] (f_temp en)] ++ r)
+    with ([mkP (SNop K_STAT_DEST) Ignore [] false] ++ mkP (SCreate pt it) Abort [] (f_temp en) :: r).
+  rewrite check_pre by reflexivity. apply check_create.
 Qed.
 Lemma commit_plan_true : commit_plan pt pd true =
   [mkP (SNop K_CHMOD) Ignore [SNop K_CLOSE_TMP; SUnlink pt] false;
@@ -104,36 +125,36 @@ Proof.
   intros Hk. induction ws as [|w ws IH]; [reflexivity|]. cbn [map forallb prim_ok local_op]. rewrite Hk, Z.eqb_refl, IH. reflexivity.
 Qed.
 
-Theorem whole_protocol writes : chk 0 (whole_plan pt pd it writes) = Some 2%nat.
+Theorem whole_protocol_e writes : chk 0 (whole_plan_e pt pd it en idest writes) = Some 2%nat.
 Proof.
-  unfold whole_plan.
+  unfold whole_plan_e. rewrite staged_finish.
   change whole_script with ([(5, 1, 0, [2]); (0, 1, 0, nz); (1, 9, 0, nz)] ++ [(2, 1, 0, nz); (3, 0, 0, nz)] ++ [(4, 1, 0, nz)]).
   rewrite !interp_app.
-  change (itp (whole_env pt pd it writes) (whole_guard false) 1 4 false [(5, 1, 0, [2]); (0, 1, 0, nz); (1, 9, 0, nz)])
-    with (mk false 1 [(SNop K_STAT_DEST, true, false)] ++ new_steps pt pd it false 1 ++ []).
+  change (itp (whole_env pt pd it en idest writes) (whole_guard false) 1 4 false [(5, 1, 0, [2]); (0, 1, 0, nz); (1, 9, 0, nz)])
+    with (writeany_steps_e pt pd it en idest false 1 ++ []).
   change (armed_after (whole_guard false) 1 false [(5, 1, 0, [2]); (0, 1, 0, nz); (1, 9, 0, nz)]) with true.
   rewrite armed_after_true. rewrite <- !app_assoc.
-  rewrite check_pre by reflexivity. rewrite check_new. cbn [app].
+  rewrite check_writeany. cbn [app].
   rewrite check_fill.
-  - change (itp (whole_env pt pd it writes) (whole_guard false) 1 4 true [(4, 1, 0, nz)]) with (commit_plan pt pd true ++ []).
+  - change (itp (whole_env pt pd it en idest writes) (whole_guard false) 1 4 true [(4, 1, 0, nz)]) with (commit_plan pt pd true ++ []).
     rewrite app_nil_r. apply check_commit.
   - apply interp_fill_ok. intros e H. entries H.
     + cbn [e_callee e_kind whole_env Z.eqb Pos.eqb]. apply mk_fill_ok; [reflexivity|]. apply writes_ok. reflexivity.
     + fill_piece.
 Qed.
 
-Theorem writefile_protocol data : chk 0 (writefile_plan pt pd it data) = Some 2%nat.
+Theorem writefile_protocol_e data : chk 0 (writefile_plan_e pt pd it en idest data) = Some 2%nat.
 Proof.
-  unfold writefile_plan.
+  unfold writefile_plan_e. rewrite staged_finish.
   change writefile_script with ([(0, 1, 0, nz); (1, 9, 0, nz)] ++ [(2, 1, 0, nz)] ++ [(3, 1, 0, nz)]).
   rewrite !interp_app.
-  change (itp (writefile_env pt pd it data) (fun _ => true) 1 3 false [(0, 1, 0, nz); (1, 9, 0, nz)])
-    with (mk false 1 [(SNop K_STAT_DEST, true, false)] ++ new_steps pt pd it false 1 ++ []).
+  change (itp (writefile_env pt pd it en idest data) (fun _ => true) 1 3 false [(0, 1, 0, nz); (1, 9, 0, nz)])
+    with (writeany_steps_e pt pd it en idest false 1 ++ []).
   change (armed_after (fun _ => true) 1 false [(0, 1, 0, nz); (1, 9, 0, nz)]) with true.
   rewrite armed_after_true. rewrite <- !app_assoc.
-  rewrite check_pre by reflexivity. rewrite check_new. cbn [app].
+  rewrite check_writeany. cbn [app].
   rewrite check_fill.
-  - change (itp (writefile_env pt pd it data) (fun _ => true) 1 3 true [(3, 1, 0, nz)]) with (commit_plan pt pd true ++ []).
+  - change (itp (writefile_env pt pd it en idest data) (fun _ => true) 1 3 true [(3, 1, 0, nz)]) with (commit_plan pt pd true ++ []).
     rewrite app_nil_r. apply check_commit.
   - apply interp_fill_ok. intros e H. entries H. fill_piece.
 Qed.
@@ -147,27 +168,27 @@ Lemma rw_post_eq : sc_post rewrite_script = [(5, 1, 0, nz); (6, 0, 0, nz)] ++ [(
 Proof. reflexivity. Qed.
 
 Lemma rw_loop_ok insize ps : forall pos,
-  forallb ok1 (fst (rw_loop pt pd it iin insize true (sc_body rewrite_script) pos ps)) = true.
+  forallb ok1 (fst (rw_loop pt pd it iin en insize true (sc_body rewrite_script) pos ps)) = true.
 Proof.
   induction ps as [|p ps IH]; intros pos; [reflexivity|].
   cbn [rw_loop]. specialize (IH (rw_next pos p)).
-  destruct (rw_loop pt pd it iin insize true (sc_body rewrite_script) (rw_next pos p) ps) as [l pos'].
+  destruct (rw_loop pt pd it iin en insize true (sc_body rewrite_script) (rw_next pos p) ps) as [l pos'].
   cbn [fst] in *. rewrite forallb_app', IH, andb_true_r.
   rewrite rw_body_eq. apply interp_fill_ok. intros e H. entries H; fill_piece.
 Qed.
 
-Theorem rewrite_protocol insize ps : chk 0 (rewrite_plan pt pd it iin insize ps) = Some 2%nat.
+Theorem rewrite_protocol_e insize ps : chk 0 (rewrite_plan_e pt pd it iin en insize ps) = Some 2%nat.
 Proof.
-  unfold rewrite_plan. cbv zeta. rewrite rw_pre_eq.
+  unfold rewrite_plan_e. cbv zeta. rewrite rw_pre_eq.
   change (armed_after (rw_guard 0 None) 2 false [(0, 1, 0, nz); (1, 1, 0, nz); (2, 9, 0, nz)]) with true.
   pose proof (rw_loop_ok insize ps 0) as Hl.
-  destruct (rw_loop pt pd it iin insize true (sc_body rewrite_script) 0 ps) as [l pos]. cbn [fst] in Hl.
-  change (itp (rw_env pt pd it iin insize 0 None) (rw_guard 0 None) 2 7 false [(0, 1, 0, nz); (1, 1, 0, nz); (2, 9, 0, nz)])
-    with (mk false 1 [(SNop K_SEEK_IN, false, false)] ++ new_steps pt pd it false 1 ++ []).
+  destruct (rw_loop pt pd it iin en insize true (sc_body rewrite_script) 0 ps) as [l pos]. cbn [fst] in Hl.
+  change (itp (rw_env pt pd it iin en insize 0 None) (rw_guard 0 None) 2 7 false [(0, 1, 0, nz); (1, 1, 0, nz); (2, 9, 0, nz)])
+    with (mk false 1 [(SNop K_SEEK_IN, false, false)] ++ new_steps_e pt pd it en it false 1 ++ []).
   rewrite <- !app_assoc. rewrite check_pre by reflexivity. rewrite check_new. cbn [app].
   rewrite check_fill by exact Hl.
   rewrite rw_post_eq, interp_app, armed_after_true. rewrite check_fill.
-  - change (itp (rw_env pt pd it iin insize pos None) (rw_guard 0 None) 2 7 true [(7, 1, 0, nz)]) with (commit_plan pt pd true ++ []).
+  - change (itp (rw_env pt pd it iin en insize pos None) (rw_guard 0 None) 2 7 true [(7, 1, 0, nz)]) with (commit_plan pt pd true ++ []).
     rewrite app_nil_r. apply check_commit.
   - apply interp_fill_ok. intros e H. entries H; fill_piece.
 Qed.
@@ -182,26 +203,26 @@ Qed.
 Lemma preads_ok k n : forallb (prim_ok k) (repeat (SNop K_PREAD_TMP, false, false) n) = true.
 Proof. induction n as [|n IH]; [reflexivity|]. cbn [repeat forallb]. rewrite IH. cbn. destruct (kind_onerr k); reflexivity. Qed.
 
-Lemma wip_plan_eq insize : wip_plan pt pd it iin insize =
-  new_steps pt pd it false 1 ++
+Lemma wip_plan_eq insize : wip_plan_e pt pd it iin en insize =
+  new_steps_e pt pd it en it false 1 ++
   mk false 2 [(SNop K_SEEK_IN, false, false)] ++ mk false 2 [(SCopy iin it 0 insize, false, false)] ++
   mk false 2 [(SNop K_SEEK_TMP, false, false)] ++ mk false 2 [(SNop K_CLOSE_IN, false, false)] ++ [].
 Proof. reflexivity. Qed.
 
-Theorem msi_protocol insize nreads edits1 edits2 : chk 0 (msi_plan pt pd it iin insize nreads edits1 edits2) = Some 2%nat.
+Theorem msi_protocol_e insize nreads edits1 edits2 : chk 0 (msi_plan_e pt pd it iin en insize nreads edits1 edits2) = Some 2%nat.
 Proof.
-  unfold msi_plan.
+  unfold msi_plan_e.
   change msi_script with ([(0, 0, 0, nz); (1, 1, 0, nz); (2, 1, 0, nz); (3, 9, 0, nz)] ++ [(4, 1, 0, nz); (5, 1, 0, nz); (6, 1, 0, nz)] ++ [(7, 1, 0, nz)]).
   rewrite !interp_app.
   change (armed_after (fun _ => true) 3 false [(0, 0, 0, nz); (1, 1, 0, nz); (2, 1, 0, nz); (3, 9, 0, nz)]) with true.
   rewrite armed_after_true.
-  change (itp (msi_env pt pd it iin insize nreads edits1 edits2) (fun _ => true) 3 7 false [(0, 0, 0, nz); (1, 1, 0, nz); (2, 1, 0, nz); (3, 9, 0, nz)])
-    with (mk false 1 [(SNop K_READ_RESULT, false, false)] ++ wip_plan pt pd it iin insize ++ []).
+  change (itp (msi_env pt pd it iin en insize nreads edits1 edits2) (fun _ => true) 3 7 false [(0, 0, 0, nz); (1, 1, 0, nz); (2, 1, 0, nz); (3, 9, 0, nz)])
+    with (mk false 1 [(SNop K_READ_RESULT, false, false)] ++ wip_plan_e pt pd it iin en insize ++ []).
   rewrite wip_plan_eq. rewrite <- !app_assoc.
   rewrite check_pre by reflexivity. rewrite check_new.
   rewrite check_fill by fill_piece. rewrite check_fill by fill_piece. rewrite check_fill by fill_piece. rewrite check_fill by fill_piece.
   cbn [app]. rewrite check_fill.
-  - change (itp (msi_env pt pd it iin insize nreads edits1 edits2) (fun _ => true) 3 7 true [(7, 1, 0, nz)]) with (commit_plan pt pd true ++ []).
+  - change (itp (msi_env pt pd it iin en insize nreads edits1 edits2) (fun _ => true) 3 7 true [(7, 1, 0, nz)]) with (commit_plan pt pd true ++ []).
     rewrite app_nil_r. apply check_commit.
   - apply interp_fill_ok. intros e H. entries H.
     + cbn [e_callee e_kind msi_env Z.eqb Pos.eqb]. apply mk_fill_ok; [reflexivity|]. apply preads_ok.
@@ -224,19 +245,19 @@ Proof.
   cbn [merge_prims_cs_from merge_prims_from andb]. rewrite IH. reflexivity.
 Qed.
 
-Theorem pgp_gen_protocol inline clearsign io : chk 0 (pgp_plan_gen pt pd it false inline clearsign io) = Some 2%nat.
+Theorem pgp_gen_protocol_e inline clearsign io : chk 0 (pgp_plan_gen_e pt pd it en idest false inline clearsign io) = Some 2%nat.
 Proof.
-  unfold pgp_plan_gen.
+  unfold pgp_plan_gen_e. rewrite staged_finish.
   change pgp_script with ([(0, 1, 0, nz); (1, 9, 0, nz)] ++
                           [(2, 1, 0, [2]); (3, 1, 0, [2]); (4, 1, 0, [2; 4]); (5, 1, 0, [2; 5]); (6, 1, 0, [3]); (7, 0, 0, nz)] ++ [(8, 1, 0, nz)]).
   rewrite !interp_app.
   assert (Ha : armed_after (pgp_guard inline clearsign) 1 false [(0, 1, 0, nz); (1, 9, 0, nz)] = true) by reflexivity.
   rewrite Ha, armed_after_true.
-  change (itp (pgp_env pt pd it false io) (pgp_guard inline clearsign) 1 8 false [(0, 1, 0, nz); (1, 9, 0, nz)])
-    with (mk false 1 [(SNop K_STAT_DEST, true, false)] ++ new_steps pt pd it false 1 ++ []).
-  rewrite <- !app_assoc. rewrite check_pre by reflexivity. rewrite check_new. cbn [app].
+  change (itp (pgp_env pt pd it en idest false io) (pgp_guard inline clearsign) 1 8 false [(0, 1, 0, nz); (1, 9, 0, nz)])
+    with (writeany_steps_e pt pd it en idest false 1 ++ []).
+  rewrite <- !app_assoc. rewrite check_writeany. cbn [app].
   rewrite check_fill.
-  - change (itp (pgp_env pt pd it false io) (pgp_guard inline clearsign) 1 8 true [(8, 1, 0, nz)]) with (commit_plan pt pd true ++ []).
+  - change (itp (pgp_env pt pd it en idest false io) (pgp_guard inline clearsign) 1 8 true [(8, 1, 0, nz)]) with (commit_plan pt pd true ++ []).
     rewrite app_nil_r. apply check_commit.
   - apply interp_fill_ok. intros e H. entries H; try fill_piece;
       cbn [e_callee e_kind pgp_env Z.eqb Pos.eqb orb]; rewrite ?merge_prims_cs_false; (apply mk_fill_ok; [reflexivity|]); apply merge_ok; reflexivity.
@@ -244,9 +265,26 @@ Qed.
 (* on the current source the final Flush of MergeClearSign is returned, so this is the plan of every PGP variant *)
 Lemma flush_not_dropped : clearsign_flush_dropped = false.
 Proof. reflexivity. Qed.
-Theorem pgp_protocol inline clearsign io : chk 0 (pgp_plan pt pd it inline clearsign io) = Some 2%nat.
-Proof. unfold pgp_plan. rewrite flush_not_dropped. apply pgp_gen_protocol. Qed.
+Theorem pgp_protocol_e inline clearsign io : chk 0 (pgp_plan_e pt pd it en idest inline clearsign io) = Some 2%nat.
+Proof. unfold pgp_plan_e. rewrite flush_not_dropped. apply pgp_gen_protocol_e. Qed.
 End S.
+
+(* nothing fails: the plans of the uninterrupted run *)
+Section S0.
+Variables (pt pd : path) (it iin : ino).
+Theorem whole_protocol writes : check pt pd it 0 (whole_plan pt pd it writes) = Some 2%nat.
+Proof. apply whole_protocol_e; reflexivity. Qed.
+Theorem writefile_protocol data : check pt pd it 0 (writefile_plan pt pd it data) = Some 2%nat.
+Proof. apply writefile_protocol_e; reflexivity. Qed.
+Theorem rewrite_protocol insize ps : check pt pd it 0 (rewrite_plan pt pd it iin insize ps) = Some 2%nat.
+Proof. apply rewrite_protocol_e. Qed.
+Theorem msi_protocol insize nreads edits1 edits2 : check pt pd it 0 (msi_plan pt pd it iin insize nreads edits1 edits2) = Some 2%nat.
+Proof. apply msi_protocol_e. Qed.
+Theorem pgp_gen_protocol inline clearsign io : check pt pd it 0 (pgp_plan_gen pt pd it false inline clearsign io) = Some 2%nat.
+Proof. apply pgp_gen_protocol_e; reflexivity. Qed.
+Theorem pgp_protocol inline clearsign io : check pt pd it 0 (pgp_plan pt pd it inline clearsign io) = Some 2%nat.
+Proof. unfold pgp_plan. rewrite flush_not_dropped. apply pgp_gen_protocol. Qed.
+End S0.
 
 (* ================================================================== per strategy: everything the property demands *)
 Section Safe.
@@ -328,11 +366,14 @@ Proof.
 Qed.
 
 (* whenever in place is not chosen, Apply runs the write-rename protocol *)
+Theorem apply_not_inplace_protocol_e pt pd it iin en insize ps :
+  check pt pd it 0 (apply_plan_e pt pd it iin en None insize ps) = Some 2%nat.
+Proof.
+  unfold apply_plan_e. rewrite check_pre by reflexivity. apply rewrite_protocol_e.
+Qed.
 Theorem apply_not_inplace_protocol pt pd it iin insize ps :
   check pt pd it 0 (apply_plan pt pd it iin None insize ps) = Some 2%nat.
-Proof.
-  unfold apply_plan. rewrite check_pre by reflexivity. apply rewrite_protocol.
-Qed.
+Proof. apply apply_not_inplace_protocol_e. Qed.
 Theorem apply_not_inplace_safe pt pd it iin s0 st lst reg same sys cw nlink insize ps :
   pt <> pd -> fresh pt it s0 ->
   apply_decision st lst reg same sys cw nlink ps insize = None ->
@@ -447,6 +488,7 @@ Definition good_op (o : sop) : bool :=
   match o with
   | SWrite i _ | SPWrite i _ _ | STrunc i _ | SCreate _ i => i =? it
   | SCopy src dst _ _ => (src =? iin) && (dst =? it)
+  | SOpen _ _ _ _ => false
   | _ => true
   end.
 
@@ -457,7 +499,7 @@ Proof.
   cbn [forallb] in H. apply andb_true_iff in H as [Ho Hr]. rewrite srun_cons. destruct (IH (sstep s o) Hr) as [I1 I2].
   rewrite I1, I2. clear IH I1 I2. rewrite tmp_eval_cons.
   assert (E : idata (sstep s o) it = tmp_step (idata s iin) (idata s it) o /\ idata (sstep s o) iin = idata s iin).
-  { destruct o; cbn [good_op] in Ho; cbn [sstep tmp_step];
+  { destruct o; cbn [good_op] in Ho; try discriminate Ho; cbn [sstep tmp_step];
       try (apply Z.eqb_eq in Ho; subst; rewrite set_data_same, set_data_other by exact Hio; split; reflexivity);
       try (split; reflexivity).
     - apply andb_true_iff in Ho as [H1 H2]. apply Z.eqb_eq in H1, H2. subst. rewrite set_data_same, set_data_other by exact Hio. split; reflexivity.
@@ -515,11 +557,13 @@ Lemma pgp_ops inline clearsign io : ops_of (pgp_plan pt pd it inline clearsign i
   [SNop K_STAT_DEST; SCreate pt it] ++ (if pgp_merges inline clearsign then [SNop K_SEEK_IN; SNop K_READ_RESULT] else []) ++
   map (fun x : prim => fst (fst x)) (merge_prims it io) ++ [SNop K_CLOSE_IN; SNop K_CHMOD; SNop K_CLOSE_TMP; SRename pt pd].
 Proof.
-  unfold pgp_plan. rewrite flush_not_dropped.
+  unfold pgp_plan. rewrite flush_not_dropped. unfold pgp_plan_gen, pgp_plan_gen_e.
+  change (o_handle (writeany_result (env_ok false false))) with RAtomic. cbn [finish_plan].
   destruct inline, clearsign.
-  all: match goal with |- ops_of ?p = _ => let p' := eval cbv [pgp_plan_gen] in p in change p with p' end.
   all: cbv [pgp_script].
   all: cbn [interp e_cnd e_kind e_callee forallb pgp_guard pgp_merges pgp_merge_clearsign negb andb orb Z.eqb Pos.eqb pgp_env].
+  all: change (writeany_steps_e pt pd it (env_ok false false) it false 1)
+         with (mk_steps pt pd false 1 [(SNop K_STAT_DEST, true, false)] ++ mk_steps pt pd false 1 [(SCreate pt it, false, false)]).
   all: rewrite ?ops_of_app, ?ops_mk, ?merge_prims_cs_false.
   all: reflexivity.
 Qed.
@@ -612,12 +656,12 @@ Fixpoint rw_final_pos (pos : Z) (ps : list patch) : Z :=
   match ps with [] => pos | p :: r => rw_final_pos (rw_next pos p) r end.
 
 Lemma rw_loop_eq insize ps : forall pos,
-  ops_of (fst (rw_loop pt pd it iin insize true (sc_body rewrite_script) pos ps)) = rw_loop_ops pos ps /\
-  snd (rw_loop pt pd it iin insize true (sc_body rewrite_script) pos ps) = rw_final_pos pos ps.
+  ops_of (fst (rw_loop pt pd it iin (env_ok false false) insize true (sc_body rewrite_script) pos ps)) = rw_loop_ops pos ps /\
+  snd (rw_loop pt pd it iin (env_ok false false) insize true (sc_body rewrite_script) pos ps) = rw_final_pos pos ps.
 Proof.
   induction ps as [|p ps IH]; intros pos; [split; reflexivity|].
   cbn [rw_loop rw_loop_ops rw_final_pos]. destruct (IH (rw_next pos p)) as [I1 I2].
-  destruct (rw_loop pt pd it iin insize true (sc_body rewrite_script) (rw_next pos p) ps) as [l pos'].
+  destruct (rw_loop pt pd it iin (env_ok false false) insize true (sc_body rewrite_script) (rw_next pos p) ps) as [l pos'].
   cbn [fst snd] in *. split; [|exact I2].
   rewrite ops_of_app, I1, rw_body_eq.
   cbn [interp e_cnd e_kind e_callee forallb rw_guard negb andb Z.eqb Pos.eqb].
@@ -629,10 +673,10 @@ Lemma rewrite_ops insize ps : ops_of (rewrite_plan pt pd it iin insize ps) =
   [SNop K_SEEK_IN; SCreate pt it] ++ rw_loop_ops 0 ps ++
   [SCopy iin it (rw_final_pos 0 ps) (Z.max 0 (insize - rw_final_pos 0 ps)); SNop K_CLOSE_IN; SNop K_CHMOD; SNop K_CLOSE_TMP; SRename pt pd].
 Proof.
-  unfold rewrite_plan. cbv zeta. rewrite rw_pre_eq.
+  unfold rewrite_plan, rewrite_plan_e. cbv zeta. rewrite rw_pre_eq.
   change (armed_after (rw_guard 0 None) 2 false [(0, 1, 0, @nil Z); (1, 1, 0, @nil Z); (2, 9, 0, @nil Z)]) with true.
   destruct (rw_loop_eq insize ps 0) as [E1 E2].
-  destruct (rw_loop pt pd it iin insize true (sc_body rewrite_script) 0 ps) as [l pos]. cbn [fst snd] in *. subst pos.
+  destruct (rw_loop pt pd it iin (env_ok false false) insize true (sc_body rewrite_script) 0 ps) as [l pos]. cbn [fst snd] in *. subst pos.
   rewrite !ops_of_app, E1. rewrite rw_post_eq. reflexivity.
 Qed.
 
